@@ -1,8 +1,8 @@
 (** The generated file as a whole: the two passes of the emitter (a dry pass that finds the labels jumped to,
     then the real one) produce a table of rule functions that meets [table_ok] of Proofs/SEmitSound.v, so every
     rule function of the file, run under the goto semantics of Model/Exec.v, does what the machine does. *)
-From PegV Require Import Base.Tac Spec.Syntax Spec.Peg Spec.WF Model.Machine Model.Analyses Model.Gen Model.Emit Model.SEmit Model.Exec
-  Proofs.EmitWF Proofs.SEmitSound Proofs.Sim Proofs.SimNoast Proofs.AsuSound Proofs.Top.
+From PegV Require Import Base.Tac Spec.Syntax Spec.Peg Spec.Tokens Spec.WF Model.Machine Model.Runtime Model.Analyses Model.Gen Model.Emit Model.SEmit Model.Exec
+  Proofs.Forest Proofs.EmitWF Proofs.ExecDet Proofs.SEmitSound Proofs.Sim Proofs.SimNoast Proofs.AsuSound Proofs.Top.
 From Coq Require Import List Arith Lia Bool.
 Import ListNotations.
 
@@ -202,6 +202,116 @@ Proof.
     rewrite mk_opts_emit in *. exact (emitted_file_sound g ptx true memo inline gen_asu buf penv Hd n r _ _ Hs Hr Hex R).
   - destruct S1 as (st' & R & P & _ & _ & L & _). exists (Ret true st'). split; [|exists st'; split; [reflexivity|split; [exact P|exact L]]].
     rewrite mk_opts_emit in *. exact (emitted_file_sound g ptx true memo inline gen_asu buf penv Hd n r _ _ Hs Hr Hex R).
+Qed.
+
+(** ... and, the goto semantics being deterministic (Proofs/ExecDet.v), that is what EVERY execution of the entry's
+    function returns; in particular none crashes (no read outside the buffer, no nil rule function, no slice beyond
+    the token buffer). *)
+Theorem generated_code_every_execution memo inline n r st0 rr :
+  deep_table_b g inline = true -> slot_ok g inline r -> reached (count_rules g) r = true ->
+  peg_parse g ptx buf penv (S n) r = Some rr ->
+  forall res, xcall buf penv (mk_opts true memo inline g) (gen_fn inline) r (reset st0) res ->
+    match rr with
+    | (Succ p f, _) => exists st', res = Ret true st' /\ pos st' = p /\ live st' = Syntax.flat f
+    | (Fail, evs) => exists st', res = Ret false st' /\ maxtok st' = first_furthest evs
+    end.
+Proof.
+  intros Hd Hs Hr H res Hx. destruct (generated_code_is_peg memo inline n r st0 rr Hd Hs Hr H) as (res0 & Hx0 & Hspec).
+  rewrite (xcall_det _ _ _ _ _ _ _ _ Hx Hx0). exact Hspec.
+Qed.
+
+Corollary generated_code_never_crashes memo inline n r st0 rr :
+  deep_table_b g inline = true -> slot_ok g inline r -> reached (count_rules g) r = true ->
+  peg_parse g ptx buf penv (S n) r = Some rr ->
+  ~ xcall buf penv (mk_opts true memo inline g) (gen_fn inline) r (reset st0) Crash.
+Proof.
+  intros Hd Hs Hr H Hx. pose proof (generated_code_every_execution memo inline n r st0 rr Hd Hs Hr H Crash Hx) as K.
+  destruct rr as [[|p f] evs]; destruct K as (st' & E & _); discriminate E.
+Qed.
+
+(** The bridge for every other machine-level theorem (tokens, actions, syntax tree, error token, reuse): whatever the
+    entry's function of the generated file returns IS what the machine returns. *)
+Theorem generated_code_is_machine memo inline n r st0 rr :
+  deep_table_b g inline = true -> slot_ok g inline r -> reached (count_rules g) r = true ->
+  peg_parse g ptx buf penv (S n) r = Some rr ->
+  forall res, xcall buf penv (mk_opts true memo inline g) (gen_fn inline) r (reset st0) res ->
+    machine g ptx buf penv memo inline (S n) r st0 = Some res /\ res <> Crash.
+Proof.
+  intros Hd Hs Hr H res Hx. set (o := mk_opts true memo inline g).
+  pose proof (entry_fn_correct memo inline n r st0 rr H) as S1. fold o in S1.
+  assert (Hex : exists b, nth_error g r = Some b /\ b <> RNil).
+  { unfold peg_parse in H. cbn [peg_ev] in H. destruct (nth_error g r) as [[b|k|]|]; try discriminate; eexists; (split; [reflexivity|discriminate]). }
+  destruct Hex as (rb & Erb & Hnn).
+  assert (Hent : machine g ptx buf penv memo inline (S n) r st0 = call_run g o (run_f g ptx buf penv o n) r (reset st0)).
+  { unfold machine, entry. fold o. rewrite Erb. unfold slot_ok in Hs. change (o_inline o r = false) in Hs. rewrite Hs. destruct rb; try congruence; cbn [run_f]; rewrite Hs; reflexivity. }
+  assert (Hasu : o_asu o r = true -> exists p f evs, rr = (Succ p f, evs)).
+  { intros Ha. destruct rr as [[|p f] evs]; [|eauto]. exfalso.
+    eapply (asu_rule_sound g ptx buf penv r); [|exact H]. unfold o, mk_opts in Ha. cbn [o_asu] in Ha. apply nth_map_seq in Ha. exact Ha. }
+  rewrite Hent. unfold call_run.
+  destruct rr as [[|p f] evs]; cbn [simr] in S1.
+  - destruct S1 as (st' & R & _). 
+    assert (Hx0 : xcall buf penv o (gen_fn inline) r (reset st0) (Ret false st')).
+    { unfold o in *. rewrite mk_opts_emit in *. exact (emitted_file_sound g ptx true memo inline gen_asu buf penv Hd n r _ _ Hs Hr (ex_intro _ rb (conj Erb Hnn)) R). }
+    rewrite (xcall_det _ _ _ _ _ _ _ _ Hx Hx0). rewrite R.
+    destruct (o_asu o r) eqn:Ea; [destruct (Hasu eq_refl) as (? & ? & ? & E); discriminate E|]. split; [reflexivity|discriminate].
+  - destruct S1 as (st' & R & _).
+    assert (Hx0 : xcall buf penv o (gen_fn inline) r (reset st0) (Ret true st')).
+    { unfold o in *. rewrite mk_opts_emit in *. exact (emitted_file_sound g ptx true memo inline gen_asu buf penv Hd n r _ _ Hs Hr (ex_intro _ rb (conj Erb Hnn)) R). }
+    rewrite (xcall_det _ _ _ _ _ _ _ _ Hx Hx0). rewrite R. destruct (o_asu o r); split; try reflexivity; discriminate.
+Qed.
+
+(** three of them, transported *)
+Corollary generated_code_actions memo inline n r st0 p f evs :
+  deep_table_b g inline = true -> slot_ok g inline r -> reached (count_rules g) r = true ->
+  peg_parse g ptx buf penv (S n) r = Some (Succ p f, evs) ->
+  forall res, xcall buf penv (mk_opts true memo inline g) (gen_fn inline) r (reset st0) res ->
+    exists st', res = Ret true st' /\ execute g ptx (live st') (0, 0) = fst (trace_forest g ptx f (0, 0)).
+Proof.
+  intros Hd Hs Hr H res Hx. destruct (generated_code_is_machine memo inline n r st0 _ Hd Hs Hr H res Hx) as [M _].
+  destruct (c04_execute g ptx buf penv Hg Hbuf Hsw memo inline (S n) r st0 p f evs Hs H) as (st' & M' & E).
+  rewrite M in M'. inv M'. eauto.
+Qed.
+Corollary generated_code_ast memo inline n r st0 p f evs :
+  deep_table_b g inline = true -> slot_ok g inline r -> reached (count_rules g) r = true ->
+  peg_parse g ptx buf penv (S n) r = Some (Succ p f, evs) ->
+  forall res, xcall buf penv (mk_opts true memo inline g) (gen_fn inline) r (reset st0) res ->
+    exists st' kids, res = Ret true st' /\ f = [Node r 0 p kids] /\
+      ast (live st') = (if 0 =? p then None else Some (Rose (r, (0, p)) (prune_forest kids))) /\
+      print_tree (live st') = (if 0 =? p then [] else preorder 0 (Rose (r, (0, p)) (prune_forest kids))).
+Proof.
+  intros Hd Hs Hr H res Hx. destruct (generated_code_is_machine memo inline n r st0 _ Hd Hs Hr H res Hx) as [M _].
+  destruct (c05_ast g ptx buf penv Hg Hbuf Hsw memo inline (S n) r st0 p f evs Hs H) as (st' & kids & M' & E).
+  rewrite M in M'. inv M'. eauto.
+Qed.
+Corollary generated_code_error_token memo inline n r st0 evs :
+  deep_table_b g inline = true -> slot_ok g inline r -> reached (count_rules g) r = true ->
+  peg_parse g ptx buf penv (S n) r = Some (Fail, evs) ->
+  forall res, xcall buf penv (mk_opts true memo inline g) (gen_fn inline) r (reset st0) res ->
+    exists st', res = Ret false st' /\ maxtok st' = first_furthest evs /\ tok_ok (length buf) (maxtok st').
+Proof.
+  intros Hd Hs Hr H res Hx. destruct (generated_code_is_machine memo inline n r st0 _ Hd Hs Hr H res Hx) as [M _].
+  destruct (c11_error_token g ptx buf penv Hg Hbuf Hsw memo inline (S n) r st0 evs Hs H) as (st' & M' & E).
+  rewrite M in M'. inv M'. eauto.
+Qed.
+
+(** memoisation and -inline are invisible in what the generated code returns: two files generated for the same tree
+    under different settings, run from any two earlier states, agree on verdict, offset, tokens and error token *)
+Corollary generated_code_options_invisible memo1 inline1 memo2 inline2 n r st1 st2 rr :
+  deep_table_b g inline1 = true -> slot_ok g inline1 r ->
+  deep_table_b g inline2 = true -> slot_ok g inline2 r ->
+  reached (count_rules g) r = true -> peg_parse g ptx buf penv (S n) r = Some rr ->
+  forall res1 res2,
+    xcall buf penv (mk_opts true memo1 inline1 g) (gen_fn inline1) r (reset st1) res1 ->
+    xcall buf penv (mk_opts true memo2 inline2 g) (gen_fn inline2) r (reset st2) res2 ->
+    exists b s1 s2, res1 = Ret b s1 /\ res2 = Ret b s2 /\
+      (b = true -> pos s1 = pos s2 /\ live s1 = live s2) /\ (b = false -> maxtok s1 = maxtok s2).
+Proof.
+  intros Hd1 Hs1 Hd2 Hs2 Hr H res1 res2 X1 X2.
+  pose proof (generated_code_every_execution memo1 inline1 n r st1 rr Hd1 Hs1 Hr H res1 X1) as K1.
+  pose proof (generated_code_every_execution memo2 inline2 n r st2 rr Hd2 Hs2 Hr H res2 X2) as K2.
+  destruct rr as [[|p f] evs].
+  - destruct K1 as (s1 & -> & M1). destruct K2 as (s2 & -> & M2). exists false, s1, s2. repeat split; try discriminate. congruence.
+  - destruct K1 as (s1 & -> & P1 & L1). destruct K2 as (s2 & -> & P2 & L2). exists true, s1, s2. repeat split; try discriminate; congruence.
 Qed.
 
 (** -noast: the same for the parser without a token tree, whose actions are pasted into the rule functions
